@@ -13,13 +13,15 @@ def stage(ctx):
                         coverage=True, timeout=ctx.pick(600, 3000), label="topology discover")
     ctx.check_coverage(r, ["ConnRequest", "Deliver", "PeerClose"], allow_zero=("InjectResp", "RoleChange", "Learn"))
     # 1b. arbitrary requests, one forged response, one role change: limits, valid types, roots never in a tree
-    r2 = ctx.model_check("net", "MC_Topology", "MC_Topology.cfg", constants={"MaxOps": 3}, coverage=True,
+    #     (quick: two of the five role configurations)
+    r2 = ctx.model_check("net", "MC_Topology", ctx.pick("MC_TopologyQuick.cfg", "MC_Topology.cfg"),
+                         constants={"MaxOps": ctx.pick(3, 4) if False else 3}, coverage=True,
                          timeout=ctx.pick(900, 3000), label="topology arbitrary")
     ctx.check_coverage(r2, ["ConnRequest", "Deliver", "InjectResp", "RoleChange", "Learn", "PeerClose"])
     # 2. behaviours
     wl = ctx.pick(10, 14)
     walks = ctx.behaviours("net", "Gen_Topology", "Gen_Topology.cfg", constants={"MaxOps": wl, "Depth": wl},
-                           simulate="num=%d" % ctx.pick(700, 6000), depth=wl + 2, seed=ctx.seed, timeout=1500)
+                           simulate="num=%d" % ctx.pick(500, 6000), depth=wl + 2, seed=ctx.seed, timeout=1500)
     disc = ctx.behaviours("net", "Gen_Topology", "Gen_Topology.cfg",
                           constants={"MaxOps": wl, "Depth": wl, "OnlyDiscover": "TRUE", "MaxInject": 0},
                           simulate="num=%d" % ctx.pick(700, 6000), depth=wl + 2, seed=ctx.seed, timeout=1500)
